@@ -170,6 +170,28 @@ CHECKS['C16'] = dict(
    note='arena schedules sampled; occupancy is sampled inside user bodies; the worker budget is checked for limits set before any parallel work starts; known finding: two external threads inside task_arena(1,1) (DESIGN 6.11)',
    technique='TLA+ function specification checked by TLC + TLC trace validation of the real market and of real arenas (externals and RML workers under the cooperative scheduler)',
    design='4 (C16), 6.11')
+CHECKS['C14'] = dict(
+   text='The abstract specification FlowAbs gives every node the sets of messages offered to it (accepted external puts, puts in flight, outputs of its predecessors - '
+        'a forwarding node passes on what it was offered), begun, running and done: a body begins only on an offered message, at most once per node, within the node\'s '
+        'concurrency limit, and not after an exception has surfaced; a put that was reported as rejected was not processed; wait_for_all returns only when no body runs '
+        'and, in a loss-less graph, everything offered to every body node has been processed. Real graphs (three-node function chains with unlimited / serial / limit-2 / '
+        'lightweight / rejecting nodes, broadcast fan-out with a second external source, a throwing body followed by a second wait and graph::reset) are built on 3 '
+        'logical threads of an all-reserved arena - 3 external putters, graph tasks on the same threads - and run under seeded random and PCT-style priority cooperative '
+        'schedules over every atomic of the graph and the scheduler; the body / put / wait events are validated by TLC (TraceFlow).',
+   note='topologies are a fixed catalogue (not randomised); schedules sampled; async_node gateways, input_node, multifunction and continue nodes and cycles with limiter feedback are not driven; no protocol model of function_input / edge switching yet (trace validation only)',
+   technique='TLA+ abstract specification + TLC trace validation of recorded executions of real flow graphs under a cooperative scheduler',
+   design='4 (C14)')
+CHECKS['C15'] = dict(
+   text='TLC model-checks Limiter (limiter_node critical sections with my_count / my_tries / my_future_decrement, reserve / consume on the predecessor queue, early '
+        'decrements, 2-3 concurrent forwarders, thresholds 1-2): un-decremented forwarded messages never exceed the threshold, FIFO, no duplicate. The ordering clauses of '
+        'FlowAbs - queue_node: a message put after another put had returned is not forwarded before it; sequencer_node: exactly 0,1,2,... in order; limiter_node: forwarded '
+        'minus decremented stays within the threshold; join_node queueing / reserving: the i-th tuple is the i-th message of every port; key_matching: equal keys, every message '
+        'used once; the number of complete tuples - are validated by TLC (TraceFlow) on recorded executions of the real nodes fed by 3 external putters (sequence numbers in 4 '
+        'permutations, thresholds 1 and 2 with the decrement sent from the successor body, ports of unequal length) and observed at a serial sink, under seeded random / PCT '
+        'cooperative schedules.',
+   note='schedules sampled; priority_queue_node, buffer_node reservation, overwrite / write_once, split and indexer nodes are not driven yet; item_buffer ring arithmetic is exercised through queue / sequencer only',
+   technique='TLA+ protocol model (Limiter) checked by TLC + TLC trace validation of recorded executions of real flow-graph nodes against FlowAbs',
+   design='4 (C15)')
 REASON_PENDING = 'check not built yet in this round (planned in DESIGN.md section 4); no verdict is claimed'
 m = {
  'version': 1,
